@@ -41,6 +41,9 @@ SHAPES = [
     ("300", "300", "300", "300", "16"),     # 13 gap up on a thin bar: 4 units of liquidity at 25%, orders short of funds
     ("300", "300", "300", "300", "0"),      # 14 price spike without volume: open orders stay as they are
     ("30", "30", "30", "30", "0"),          # 15 price collapse without volume
+    ("100", "100", "100", "100", "300"),    # 16 three units of liquidity at a volume limit of 1%
+    ("100", "110", "90", "100", "250"),     # 17 2.5 units at 1%
+    ("100", "100", "100", "100", "1000"),   # 18 ten units at 1%
 ]
 
 
@@ -99,18 +102,49 @@ def install_random_ids():
     _margin.uuid = _uuid
 
 
+class DriverLimit(Exception):
+    """The synchronous driver met something it cannot drive (an API coroutine waiting for a future): a limitation of the
+    harness (exit 2), never a verdict about the library."""
+
+
 def call(coro):
-    """Drives a coroutine that never suspends (all Exchange API methods)."""
+    """Drives an Exchange API coroutine to completion without an event loop. The API methods never suspend; a bare yield
+    (asyncio.sleep(0)) is resumed at once, which is what a loop with nothing else to run would do."""
     try:
-        coro.send(None)
+        for _ in range(1000):
+            y = coro.send(None)
+            if y is not None:
+                break
     except StopIteration as e:
         return e.value
     coro.close()
-    raise RuntimeError("exchange API coroutine suspended")
+    raise DriverLimit("exchange API coroutine waits for a future: the synchronous driver cannot run it")
 
 
 async def _noop(ev):
     pass
+
+
+def sym_prec(cfg, s):
+    """Precision configured for a symbol (set_symbol_precision)."""
+    over = cfg.get("sym_prec") or {}
+    if s in over:
+        return over[s]
+    return cfg["qp"] if s == "USD" else cfg["bp"]
+
+
+def pair_prec(cfg, pi):
+    """(base precision, quote precision) the exchange uses for a pair: explicit pair info, else derived from the symbols'
+    precisions, else the default pair info."""
+    over = cfg.get("pair_prec") or {}
+    if pi in over:
+        return tuple(over[pi])
+    p = PAIRS[pi]
+    if cfg.get("no_pair_info"):
+        return (sym_prec(cfg, p.base_symbol), sym_prec(cfg, p.quote_symbol))
+    if cfg.get("dpi"):
+        return (cfg["bp"], cfg["qp"])
+    return (cfg["bp"], cfg["qp"] if p.quote_symbol == "USD" else cfg["bp"])
 
 
 def make_exchange(cfg, dispatcher):
@@ -128,7 +162,11 @@ def make_exchange(cfg, dispatcher):
         isym = lend.get("isym", "USD")
         quote = lend.get("quote", "USD")  # the symbol the margin account is valued in
         if isym == "same":
-            ls = lending.MarginLoans(quote)
+            # lend["default"]: default conditions exist NEXT TO the per-symbol ones (which must win)
+            dflt = lend.get("default")
+            ls = lending.MarginLoans(quote, default_conditions=None if dflt is None else lending.MarginLoanConditions(
+                interest_symbol="USD", interest_percentage=D(str(dflt["pct"])), interest_period=period * STEP,
+                min_interest=D(str(dflt.get("minint", 0))), margin_requirement=D(str(dflt["req"]))))
             for s in ("USD", "BTC", "ETH"):
                 ls.set_conditions(s, cond(s))
         else:
@@ -145,14 +183,19 @@ def make_exchange(cfg, dispatcher):
     else:
         def liq_factory():
             return liquidity.VolumeShareImpact(D(str(liq[0])), D(str(liq[1])))
+    if cfg.get("dpi"):
+        # precision configured through default_pair_info only (no lending: nothing ever asks for a symbol's precision)
+        assert not lend
+        kw["default_pair_info"] = bs.PairInfo(cfg["bp"], cfg["qp"])
     e = ex.Exchange(dispatcher, {s: D(str(a)) for s, a in cfg["init"]}, fee_strategy=fee_strategy,
                     liquidity_strategy_factory=liq_factory, **kw)
-    bp, qp = cfg["bp"], cfg["qp"]
-    for p in PAIRS[:cfg.get("pairs", 1)]:
-        e.set_symbol_precision(p.base_symbol, bp)
+    if cfg.get("dpi"):
+        return e
+    for pi, p in enumerate(PAIRS[:cfg.get("pairs", 1)]):
+        e.set_symbol_precision(p.base_symbol, sym_prec(cfg, p.base_symbol))
         if not cfg.get("no_pair_info"):  # otherwise the pair's precisions are derived from its symbols' precisions
-            e.set_pair_info(p, bs.PairInfo(bp, qp if p.quote_symbol == "USD" else bp))
-    e.set_symbol_precision("USD", qp)
+            e.set_pair_info(p, bs.PairInfo(*pair_prec(cfg, pi)))
+    e.set_symbol_precision("USD", sym_prec(cfg, "USD"))
     if lend and lend.get("isym") and lend["isym"] not in ("USD", "BTC", "ETH", "same"):
         raise ValueError("interest symbol must be priced")
     return e
@@ -260,6 +303,8 @@ class World:
                 call(e.repay_loan(lid))
             else:
                 raise ValueError(a)
+        except DriverLimit:
+            raise
         except errors.Error as x:
             # a bar is not a request: nothing may be raised while the exchange processes it
             raised = ("crash" if a[0] in ("bar", "bar=") else "rejected", type(x).__name__, str(x)[:80])
@@ -301,7 +346,7 @@ class World:
         return True
 
     # ---- canonical key of the live state (DESIGN.md 2.3)
-    def key(self, ref_orders=2, ref_loans=2):
+    def key(self, ref_orders=3, ref_loans=2):
         e = self.e
         ab = e._balances
         syms = sorted(set(ab.balances) | set(ab.holds) | set(ab.borrowed))
@@ -321,8 +366,11 @@ class World:
                     tuple(sorted((s, v) for s, v in holds.items() if v)), len(o._loan_ids),
                     min(self.bars_since[k], 1))
         okeys = [okey(k) for k in range(len(self.ids))]
-        referenced = tuple(okeys[:ref_orders]) + (len(self.ids) >= ref_orders,)
-        rest = tuple(sorted((x for x in okeys[ref_orders:] if x is not None), key=repr))
+        # orders an action can address by creation index (cancel(0..2)) keep their index; the others keep their ACCEPTANCE
+        # ORDER (never sorted: matching takes a bar's liquidity in acceptance order, so states that differ in it have
+        # different futures)
+        referenced = tuple(okeys[:ref_orders]) + (min(len(self.ids), ref_orders),)
+        rest = tuple(x for x in okeys[ref_orders:] if x is not None)
         lm = e._loan_mgr
 
         def lkey(lid):
@@ -365,6 +413,8 @@ def alphabet(cfg, level="std"):
         return alphabet_cross(cfg)
     if level == "ar":
         return alphabet_ar(cfg)
+    if level == "rb":
+        return alphabet_rb(cfg)
     shapes = {"small": (0, 1, 5), "std": (0, 1, 2, 3, 4, 5, 6, 9), "full": tuple(range(len(SHAPES)))}[level]
     A = [("bar", pi, si) for pi in range(npairs) for si in shapes]
     amts = {"small": (1, 3), "std": (1, 3), "full": (1, 2, 3)}[level]
@@ -408,6 +458,9 @@ def alphabet_lend(cfg):
     u = unit(cfg)
     npairs = cfg.get("pairs", 1)
     A = [("bar", pi, si) for pi in range(npairs) for si in (7, 5, 6)]
+    # another bar with the SAME timestamp and another price (e.g. feeds of two resolutions): whatever was computed from the
+    # first one - interest in another symbol, margin levels - is stale within the very same instant
+    A.append(("bar=", 0, 5))
     for side in ("B", "S"):
         for n in (1, 3):
             for ab, ar in ((False, False), (True, False), (True, True), (False, True)):
@@ -426,7 +479,7 @@ def alphabet_lend(cfg):
 def alphabet_liq(cfg):
     """Liquidity-focused alphabet: thin bars (1, 2.5, 2.75, 10 units of liquidity at 25%), competing orders, cancels."""
     u = unit(cfg)
-    A = [("bar", 0, si) for si in (10, 0, 9, 1, 4, 11, 12, 13)]
+    A = [("bar", 0, si) for si in cfg.get("liq_shapes", (10, 0, 9, 1, 4, 11, 12, 13))]
     A.append(("bar=", 0, 0))  # a second bar with the same timestamp
     for side in ("B", "S"):
         for n in (1, 2, 3):
@@ -474,4 +527,15 @@ def alphabet_ar(cfg):
     A = [("bar", 0, 0), ("bar", 0, 14), ("bar", 0, 15), ("loan", "USD", "100"),
          ("ord", "lim", "S", 0, str(3 * u), "100", None, True, True), ("ord", "lim", "B", 0, str(3 * u), "100", None, True, True),
          ("cancel", 0), ("repay", 0)]
+    return A
+
+
+def alphabet_rb(cfg):
+    """Roll-back alphabet: an auto-borrow sell whose minimum fee exceeds its proceeds is short in TWO symbols (two loans);
+    loans that bring the margin level to exactly 100% so that the second loan is refused and the first must be undone."""
+    u = unit(cfg)
+    A = [("bar", 0, 0), ("loan", "USD", "198"), ("loan", "USD", "100"),
+         ("ord", "lim", "S", 0, str(u), "100", None, True, False), ("ord", "mkt", "S", 0, str(u), None, None, True, False),
+         ("ord", "lim", "B", 0, str(u), "100", None, False, False), ("ord", "lim", "S", 0, str(u), "100", None, True, True),
+         ("cancel", 0), ("repay", 0), ("bar", 0, 5)]
     return A
